@@ -1,8 +1,12 @@
-"""Statement-by-statement translation (pyexpr.py style) of the three methods that decide C17's server-side answers
+"""Statement-by-statement translation (pyexpr.py style) of the methods that decide C17's server-side behaviour
 
     IOSoftware.add_connection          (simulator/system/software.py)
+    IOSoftware.terminate_connection    (under send_disconnect=False, the way `receive` calls it)
     DatabaseService._process_connect   (simulator/system/services/database/database_service.py)
     DatabaseService._process_sql
+    DatabaseService.receive            (the dispatcher on the payload's keys; round 3)
+    DatabaseService.backup_database    (the service's logic around the transfer; the transfer is the model's ftpSendFile; round 3)
+    DatabaseService.restore_backup     (ditto, ftpRequestFile: the ORDER of leftover removal / request / arrival check / replacement; round 3)
 
 into Lean functions over the model's `Server` record (Gen/DatabaseTr.lean).  Props/C17.lean proves the translated
 functions EQUAL to the hand-written model (`C17_tr_*`), so a change of a guard, an operator, a status code, a branch
@@ -228,6 +232,381 @@ class Tr:
         raise Unsupported(f"statement {u(st)[:100]}")
 
 
+# ------------------------------------------------------------------------------------------------------------------------
+# `DatabaseService.receive` (the dispatcher) and `IOSoftware.terminate_connection`
+#
+# Vocabulary (stated in the generated file):
+#   payload                      -> `payload : Raw` (Model/Database.lean): isDict, type, connId, password, sql, uuid
+#   payload['k']                 -> the key must be present: otherwise the translated function yields `RecvOut.raised` (KeyError)
+#   payload.get('k')             -> `none` when absent
+#   X in self.connections        -> `s.hasConn` (X an optional id)          self.connections.get(X) -> the same, as a truth value
+#   self.connections[id]['ip_address'] -> `s.ownerOf id`                    frame.ip.src_ip_address -> `some src`
+#   self._connections.pop(id)    -> the entries with that id are filtered out
+#   result = {...'status_code': n...} -> `(n, none)`; result = self._process_connect(...) / self._process_sql(...) -> the
+#                                   translated functions above; self.send(payload=result, ...) -> the answer that is sent
+PTYPES = {"connect_request": "connectRequest", "disconnect": "disconnect", "sql": "sql"}
+FRAME_SRC = ("frame.ip.src_ip_address", "kwargs.get('frame').ip.src_ip_address")
+
+
+class TrRecv:
+    """Continuation-duplicating translator for `receive`; state = (s, result, sent)."""
+
+    def __init__(self):
+        self.n = 0
+
+    def fresh(self, base: str) -> str:
+        self.n += 1
+        return f"{base}{self.n}"
+
+    # ---- expressions: returns (lean term, type, needs) where needs = [(lean scrutinee, bound var)] presence checks
+    def val(self, e: ast.AST, env: dict):
+        t = u(e)
+        if t in env:
+            return env[t][0], env[t][1], []
+        if t in FRAME_SRC:
+            return "(some src)", "optaddr", []
+        if t == "payload['connection_id']":
+            v = self.fresh("cid")
+            return v, "optid", [("payload.connId", v)]
+        if t == "payload['sql']":
+            v = self.fresh("q")
+            return v, "Sql", [("payload.sql", v)]
+        if t == "payload['uuid']":
+            return "()", "uuid", [("(if payload.uuid then some () else none)", self.fresh("_u"))]
+        if t == "payload.get('connection_id')":
+            return "payload.connId.join", "optid", []
+        if t == "payload.get('password')":
+            return "payload.password", "optpw", []
+        if t == "payload.get('connection_request_id')":
+            return "()", "reqid", []
+        if t == "self.connections[connection_id]['ip_address']" and env.get("connection_id", ("", ""))[1] == "optid":
+            return f"(s.ownerOf {env['connection_id'][0]})", "optaddr", []
+        if isinstance(e, ast.Constant) and isinstance(e.value, bool):
+            return ("true" if e.value else "false"), "bool", []
+        raise Unsupported(f"receive: value {t}")
+
+    def cond(self, e: ast.AST, env: dict):
+        """(lean Bool term, needs)"""
+        t = u(e)
+        if t == "self._can_perform_action()":
+            return "s.canAct", []
+        if t == "isinstance(payload, dict)":
+            return "payload.isDict", []
+        if t == "payload.get('type')":
+            return "payload.type.isSome", []
+        if t in ("self.connections.get(connection_id)",) and env.get("connection_id", ("", ""))[1] == "optid":
+            return f"(match {env['connection_id'][0]} with | some i => s.hasConn i | none => false)", []
+        if isinstance(e, ast.Name) and env.get(t, ("", ""))[1] == "bool":
+            return env[t][0], []
+        if isinstance(e, ast.UnaryOp) and isinstance(e.op, ast.Not):
+            c, n = self.cond(e.operand, env)
+            return f"(!{c})", n
+        if isinstance(e, ast.BoolOp) and isinstance(e.op, ast.And):
+            parts, needs = [], []
+            for x in e.values:
+                c, n = self.cond(x, env)
+                if n and parts:
+                    raise Unsupported(f"receive: a key lookup that may raise behind a short-circuit: {t}")
+                parts.append(c)
+                needs += n
+            return "(" + " && ".join(parts) + ")", needs
+        if isinstance(e, ast.Compare) and len(e.ops) == 1:
+            op, rhs = e.ops[0], e.comparators[0]
+            if u(e.left) == "payload['type']" and isinstance(op, ast.Eq) and isinstance(rhs, ast.Constant) and isinstance(rhs.value, str):
+                if not env.get("#type-present"):
+                    raise Unsupported("receive: payload['type'] used outside the `payload.get('type')` guard")
+                return f"(payload.type == some PType.{PTYPES.get(rhs.value, 'other')})", []
+            if isinstance(op, ast.In) and u(rhs) == "self.connections":
+                v, ty, n = self.val(e.left, env)
+                if ty != "optid":
+                    raise Unsupported(f"receive: membership of {ty}")
+                return f"(match {v} with | some i => s.hasConn i | none => false)", n
+            if isinstance(op, ast.Eq):
+                a, at, n1 = self.val(e.left, env)
+                b, bt, n2 = self.val(rhs, env)
+                if at == bt == "optaddr":
+                    return f"({a} == {b})", n1 + n2
+        raise Unsupported(f"receive: condition {t}")
+
+    @staticmethod
+    def wrap(needs, pad: str, raised: str, body_fn) -> str:
+        """emit the presence checks, then the body (indented accordingly)"""
+        out, k = "", 0
+        for scrut, var in needs:
+            p = pad + "  " * k
+            out += f"{p}match {scrut} with\n{p}| none => {raised}\n{p}| some {var} =>\n"
+            k += 1
+        return out + body_fn(k)
+
+    def result_of(self, rhs: ast.AST, env: dict):
+        """`result = ...` -> (prefix lines builder, lean term for result, needs)"""
+        if isinstance(rhs, ast.Dict):
+            sc = _dict_field(rhs, "status_code")
+            if not (isinstance(sc, ast.Constant) and isinstance(sc.value, int)) or _dict_field(rhs, "connection_id") is not None:
+                raise Unsupported(f"receive: result literal {u(rhs)}")
+            return [], f"({sc.value}, none)", []
+        if isinstance(rhs, ast.Call) and u(rhs.func) == "self._process_connect" and not rhs.args:
+            kw = {k.arg: k.value for k in rhs.keywords}
+            if set(kw) != {"src_ip", "password", "connection_request_id", "session_id"} or u(kw["session_id"]) != "session_id":
+                raise Unsupported(f"receive: _process_connect call {u(rhs)}")
+            a, at, n0 = self.val(kw["src_ip"], env)
+            pw, pt, n1 = self.val(kw["password"], env)
+            _, rt, n2 = self.val(kw["connection_request_id"], env)
+            if (at, pt, rt) != ("optaddr", "optpw", "reqid") or a != "(some src)":
+                raise Unsupported(f"receive: _process_connect arguments {u(rhs)}")
+            return ([f"let r := processConnect s src {pw}", "let s := r.1"],
+                    "(r.2.1, if r.2.2.1 then r.2.2.2 else none)", n0 + n1 + n2)
+        if isinstance(rhs, ast.Call) and u(rhs.func) == "self._process_sql" and not rhs.args:
+            kw = {k.arg: k.value for k in rhs.keywords}
+            if set(kw) != {"query", "query_id", "connection_id"}:
+                raise Unsupported(f"receive: _process_sql call {u(rhs)}")
+            q, qt, n0 = self.val(kw["query"], env)
+            _, ut, n1 = self.val(kw["query_id"], env)
+            _, ct, n2 = self.val(kw["connection_id"], env)
+            if (qt, ut, ct) != ("Sql", "uuid", "optid"):
+                raise Unsupported(f"receive: _process_sql arguments {u(rhs)}")
+            return [f"let r := processSql s {q}", "let s := r.1"], "(r.2.1, none)", n0 + n1 + n2
+        raise Unsupported(f"receive: result = {u(rhs)}")
+
+    def go(self, body, env: dict, ind: int, fall=None) -> str:
+        pad = "  " * ind
+        body = list(body)
+        while body and skippable(body[0]):
+            body.pop(0)
+        if not body:
+            if fall is None:
+                raise Unsupported("receive: control falls off the end")
+            return fall(env, ind)
+        st, rest = body[0], body[1:]
+        raised = "(s, RecvOut.raised)"
+        if isinstance(st, ast.Return):
+            v, ty, n = self.val(st.value, env)
+            if ty != "bool" or n:
+                raise Unsupported(f"receive: {u(st)}")
+            return f"{pad}(s, RecvOut.ret sent {v})"
+        if isinstance(st, ast.If):
+            c, needs = self.cond(st.test, env)
+            env_t = dict(env)
+            if "payload.get('type')" in u(st.test) and not (isinstance(st.test, ast.UnaryOp)):
+                env_t["#type-present"] = True
+
+            def body_fn(k):
+                p = pad + "  " * k
+                return (f"{p}if {c} then\n{self.go(list(st.body) + rest, env_t, ind + k + 1, fall)}\n{p}else\n"
+                        f"{self.go(list(st.orelse) + rest, env, ind + k + 1, fall)}")
+            return self.wrap(needs, pad, raised, body_fn)
+        if isinstance(st, ast.Assign) and len(st.targets) == 1 and isinstance(st.targets[0], ast.Name):
+            tgt = st.targets[0].id
+            if tgt == "result":
+                pre, term, needs = self.result_of(st.value, env)
+
+                def body_fn(k):
+                    p = pad + "  " * k
+                    lines = "".join(f"{p}{x}\n" for x in pre) + f"{p}let result : Nat × Option Nat := {term}\n"
+                    return lines + self.go(rest, env, ind + k, fall)
+                return self.wrap(needs, pad, raised, body_fn)
+            if tgt in ("src_ip", "connection_id", "connected_ip_address"):
+                v, ty, needs = self.val(st.value, env)
+                want = {"src_ip": "optaddr", "connection_id": "optid", "connected_ip_address": "optaddr"}[tgt]
+                if ty != want:
+                    raise Unsupported(f"receive: {u(st)} : {ty}")
+                lty = "Option Nat"
+                env2 = dict(env)
+                env2[tgt] = (tgt, ty)
+                if tgt == "src_ip" and v == "(some src)" and not needs:
+                    # the sender's address: substituted, not bound (it is the `src` argument of the translated function)
+                    env2[tgt] = (v, ty)
+                    return self.go(rest, env2, ind, fall)
+
+                def body_fn(k):
+                    p = pad + "  " * k
+                    return f"{p}let {tgt} : {lty} := {v}\n" + self.go(rest, env2, ind + k, fall)
+                return self.wrap(needs, pad, raised, body_fn)
+            if tgt == "frame" and u(st.value) == "kwargs.get('frame')":
+                return self.go(rest, env, ind, fall)
+            if tgt == "connection_dict" and u(st.value) == "self._connections.pop(connection_id)" and env.get("connection_id", ("", ""))[1] == "optid":
+                cid = env["connection_id"][0]
+                return (f"{pad}let s := {{ s with conns := s.conns.filter (fun c => !(some c.id == {cid})) }}\n" + self.go(rest, env, ind, fall))
+            raise Unsupported(f"receive: assignment {u(st)}")
+        if isinstance(st, ast.Expr) and isinstance(st.value, ast.Call):
+            f = u(st.value.func)
+            kw = {k.arg: k.value for k in st.value.keywords}
+            if f == "self.terminate_connection" and not st.value.args and set(kw) == {"connection_id", "send_disconnect"} \
+                    and isinstance(kw["send_disconnect"], ast.Constant) and kw["send_disconnect"].value is False:
+                v, ty, needs = self.val(kw["connection_id"], env)
+                if ty != "optid":
+                    raise Unsupported(u(st))
+
+                def body_fn(k):
+                    p = pad + "  " * k
+                    return f"{p}let s := (terminateConnection s {v}).1\n" + self.go(rest, env, ind + k, fall)
+                return self.wrap(needs, pad, raised, body_fn)
+            if f == "self.send" and not st.value.args and set(kw) == {"payload", "session_id"} and u(kw["payload"]) == "result" \
+                    and u(kw["session_id"]) == "session_id":
+                return f"{pad}let sent : Option (Nat × Option Nat) := some result\n" + self.go(rest, env, ind, fall)
+        raise Unsupported(f"receive: statement {u(st)[:100]}")
+
+
+def _translate_terminate(io: ast.ClassDef) -> str:
+    """`IOSoftware.terminate_connection` under `send_disconnect=False` (the only way `receive` calls it): the branch under
+    `if send_disconnect:` is dead and dropped; anything else must translate."""
+    fn = find_method(io, "terminate_connection")
+    args = [a.arg for a in fn.args.args]
+    if args != ["self", "connection_id", "send_disconnect"]:
+        raise Unsupported(f"terminate_connection signature {args}")
+    tr = TrRecv()
+    env = {"connection_id": ("connection_id", "optid")}
+
+    def strip_dead(stmts):
+        out = []
+        for x in stmts:
+            if isinstance(x, ast.If) and u(x.test) == "send_disconnect":
+                out += strip_dead(x.orelse)       # send_disconnect is False
+            elif isinstance(x, ast.If):
+                out.append(ast.If(test=x.test, body=strip_dead(x.body), orelse=strip_dead(x.orelse)))
+            else:
+                out.append(x)
+        return out
+    body = strip_dead(fn.body)
+    # returns a bool: reuse the walker with a bool-return
+    txt = tr.go(body, env, 1)
+    return txt.replace("RecvOut.ret sent ", "")
+
+
+# ------------------------------------------------------------------------------------------------------------------------
+# `DatabaseService.backup_database` / `restore_backup`: the database service's own logic around the two FTP transfers
+#
+# Vocabulary:
+#   self._can_perform_action() -> s.canAct          self.backup_server_ip is None -> !s.backupConfigured
+#   software_manager.software.get('ftp-client') -> the FTP client on the host (truthy iff installed: s.ftpc.isSome)
+#   self.db_file -> s.file (None = no live file)    file_system.get_file('downloads','database.db') -> s.downloads
+#   file_system.get_file('database','database.db', include_deleted=True) -> the database file, live or deleted: never None
+#       (the constructor creates it, deleting keeps it among the deleted files); `.deleted` -> s.file.isNone
+#   file_system.delete_file('downloads'|'database','database.db') -> downloads := none | file := none
+#   file_system.copy_file('downloads','database.db' -> 'database') -> file := the download (folder re-created), if there is one
+#   ftp_client_service.send_file(...) / request_file(...) -> `ftpSendFile` / `ftpRequestFile` of Model/Database.lean
+#   visible health bookkeeping (old_visible_state, visible_health_status) -> not modelled (skip list)
+XFER_SKIP_ASSIGN = ("old_visible_state", "self.db_file.visible_health_status")
+GET_DL = "self.file_system.get_file(folder_name='downloads', file_name='database.db')"
+GET_DB_ANY = "self.file_system.get_file(folder_name='database', file_name='database.db', include_deleted=True)"
+DEL_DL = "self.file_system.delete_file(folder_name='downloads', file_name='database.db')"
+DEL_DB = "self.file_system.delete_file(folder_name='database', file_name='database.db')"
+COPY = "self.file_system.copy_file(src_folder_name='downloads', src_file_name='database.db', dst_folder_name='database')"
+SEND_FILE_KW = {"dest_ip_address": "self.backup_server_ip", "src_file_name": "self.db_file.name", "src_folder_name": "'database'",
+                "dest_folder_name": "str(self.uuid)", "dest_file_name": "'database.db'"}
+REQ_FILE_KW = {"src_folder_name": "str(self.uuid)", "src_file_name": "'database.db'", "dest_folder_name": "'downloads'",
+               "dest_file_name": "'database.db'", "dest_ip_address": "self.backup_server_ip"}
+
+
+class TrXfer:
+    """Translator for backup_database / restore_backup; state = s (and b for the backup)."""
+
+    def __init__(self, with_backup: bool):
+        self.wb = with_backup
+
+    def ret(self, v: str) -> str:
+        return f"(s, b, {v})" if self.wb else f"(s, {v})"
+
+    def cond(self, e: ast.AST, env: dict) -> str:
+        t = u(e)
+        if isinstance(e, ast.UnaryOp) and isinstance(e.op, ast.Not):
+            return f"(!{self.cond(e.operand, env)})"
+        if t == "self._can_perform_action()":
+            return "s.canAct"
+        if t == "self.backup_server_ip is None":
+            return "(!s.backupConfigured)"
+        if t == "ftp_client_service" and env.get(t) == "ftpc":
+            return "s.ftpc.isSome"
+        if t == "self.db_file":
+            return "s.file.isSome"
+        if t == "self.db_file is None":
+            return "s.file.isNone"
+        if t == "response" and env.get(t) == "bool":
+            return "response"
+        if t == GET_DL + " is not None":
+            return "s.downloads.isSome"
+        if t == GET_DL + " is None":
+            return "s.downloads.isNone"
+        if t == "db_file is None" and env.get("db_file") == "anyfile":
+            return "false"
+        if t == "db_file.deleted" and env.get("db_file") == "anyfile":
+            return "s.file.isNone"
+        raise Unsupported(f"transfer: condition {t}")
+
+    def go(self, body, env: dict, ind: int) -> str:
+        pad = "  " * ind
+        body = list(body)
+        while body and (skippable(body[0]) or self.skip(body[0])):
+            body.pop(0)
+        if not body:
+            raise Unsupported("transfer: control falls off the end")
+        st, rest = body[0], body[1:]
+        if isinstance(st, ast.Return):
+            if not (isinstance(st.value, ast.Constant) and isinstance(st.value.value, bool)):
+                raise Unsupported(f"transfer: {u(st)}")
+            return pad + self.ret("true" if st.value.value else "false")
+        if isinstance(st, ast.If):
+            # both branches are straight-line state updates (possibly empty): one `let s := if ...`, the rest is shared
+            a, b2 = self.updates(st.body), self.updates(st.orelse)
+            if a is not None and b2 is not None:
+                return (f"{pad}let s := if {self.cond(st.test, env)} then {a} else {b2}\n" + self.go(rest, env, ind))
+            return (f"{pad}if {self.cond(st.test, env)} then\n{self.go(list(st.body) + rest, env, ind + 1)}\n{pad}else\n"
+                    f"{self.go(list(st.orelse) + rest, env, ind + 1)}")
+        tgt = val = None
+        if isinstance(st, ast.AnnAssign) and st.value is not None:
+            tgt, val = u(st.target), st.value
+        elif isinstance(st, ast.Assign) and len(st.targets) == 1:
+            tgt, val = u(st.targets[0]), st.value
+        if tgt is not None:
+            v = u(val)
+            if tgt == "software_manager" and v == "self.software_manager":
+                return self.go(rest, env, ind)
+            if tgt == "ftp_client_service" and v == "software_manager.software.get('ftp-client')":
+                return self.go(rest, dict(env, ftp_client_service="ftpc"), ind)
+            if tgt == "db_file" and v == GET_DB_ANY:
+                return self.go(rest, dict(env, db_file="anyfile"), ind)
+            if tgt == "response" and isinstance(val, ast.Call) and env.get("ftp_client_service") == "ftpc" and not val.args:
+                kw = {k.arg: u(k.value) for k in val.keywords}
+                f = u(val.func)
+                if f == "ftp_client_service.send_file" and kw == SEND_FILE_KW and self.wb:
+                    return (f"{pad}let r := ftpSendFile s b pathReq big\n{pad}let s := r.1\n{pad}let b := r.2.1\n{pad}let response := r.2.2\n"
+                            + self.go(rest, dict(env, response="bool"), ind))
+                if f == "ftp_client_service.request_file" and kw == REQ_FILE_KW and not self.wb:
+                    return (f"{pad}let r := ftpRequestFile s b pathReq pathResp sendOk\n{pad}let s := r.1\n{pad}let response := r.2\n"
+                            + self.go(rest, dict(env, response="bool"), ind))
+            raise Unsupported(f"transfer: assignment {u(st)[:120]}")
+        if isinstance(st, ast.Expr) and isinstance(st.value, ast.Call):
+            t = u(st.value)
+            if t == DEL_DL:
+                return f"{pad}let s := {{ s with downloads := none }}\n" + self.go(rest, env, ind)
+            if t == DEL_DB:
+                return f"{pad}let s := {{ s with file := none }}\n" + self.go(rest, env, ind)
+            if t == COPY:
+                return (f"{pad}let s := match s.downloads with | some d => {{ s with file := some d, folder := true }} | none => s\n"
+                        + self.go(rest, env, ind))
+            if t == "self.set_health_state(SoftwareHealthState.GOOD)":
+                return f"{pad}let s := {{ s with health := Health.good }}\n" + self.go(rest, env, ind)
+        raise Unsupported(f"transfer: statement {u(st)[:100]}")
+
+    @staticmethod
+    def skip(st: ast.stmt) -> bool:
+        return isinstance(st, ast.Assign) and len(st.targets) == 1 and u(st.targets[0]) in XFER_SKIP_ASSIGN
+
+    UPDATES = {DEL_DL: "{ s with downloads := none }", DEL_DB: "{ s with file := none }"}
+
+    def updates(self, stmts) -> "str | None":
+        """a block made only of bookkeeping and plain state updates -> the lean term of the new `s`; otherwise None"""
+        term = "s"
+        for x in stmts:
+            if skippable(x) or self.skip(x):
+                continue
+            if isinstance(x, ast.Expr) and isinstance(x.value, ast.Call) and u(x.value) in self.UPDATES:
+                term = f"(let s := {term}; {self.UPDATES[u(x.value)]})" if term != "s" else self.UPDATES[u(x.value)]
+                continue
+            return None
+        return term
+
+
 def _dict_field(d: ast.Dict, key: str):
     for k, v in zip(d.keys, d.values):
         if isinstance(k, ast.Constant) and k.value == key:
@@ -279,6 +658,18 @@ def emit() -> str:
     ps = find_method(db, "_process_sql")
     ps_txt = Tr(ret_sql, {}).go(ps.body, {"query": ("query", "Sql")}, 1)
 
+    term_txt = _translate_terminate(io)
+    rv = find_method(db, "receive")
+    if [a.arg for a in rv.args.args] != ["self", "payload", "session_id"] or rv.args.kwarg is None:
+        raise Unsupported("receive signature")
+    stmts = [x for x in rv.body if not skippable(x)]
+    if not (isinstance(stmts[0], ast.Assign) and u(stmts[0].targets[0]) == "result"):
+        raise Unsupported("receive: does not start with the default result")
+    recv_txt = TrRecv().go(rv.body, {}, 1)
+
+    bk_txt = TrXfer(True).go(find_method(db, "backup_database").body, {}, 1)
+    rs_txt = TrXfer(False).go(find_method(db, "restore_backup").body, {}, 1)
+
     return "\n".join([
         "import PrimaiteModel.Model.Database",
         "namespace Primaite.Gen.DatabaseTr",
@@ -294,4 +685,21 @@ def emit() -> str:
         "/-- `DatabaseService._process_sql`, translated: new server, status_code, whether the answer carries the query's uuid -/",
         "def processSql (s : Server) (query : Sql) : Server × Nat × Bool :=",
         ps_txt,
+        "",
+        "/-- `IOSoftware.terminate_connection(connection_id, send_disconnect=False)`, translated (the `if send_disconnect:` branch is dead) -/",
+        "def terminateConnection (s : Server) (connection_id : Option Nat) : Server × Bool :=",
+        term_txt,
+        "",
+        "/-- `DatabaseService.receive`, translated statement by statement: the dispatcher on the payload's keys -/",
+        "def receive (s : Server) (src : Nat) (payload : Raw) : Server × RecvOut :=",
+        "  let sent : Option (Nat × Option Nat) := none",
+        recv_txt,
+        "",
+        "/-- `DatabaseService.backup_database`, translated (the transfer itself is `ftpSendFile`) -/",
+        "def backupDatabase (s : Server) (b : Backup) (pathReq big : Bool) : Server × Backup × Bool :=",
+        bk_txt,
+        "",
+        "/-- `DatabaseService.restore_backup`, translated (the transfer itself is `ftpRequestFile`) -/",
+        "def restoreBackup (s : Server) (b : Backup) (pathReq pathResp sendOk : Bool) : Server × Bool :=",
+        rs_txt,
         "end Primaite.Gen.DatabaseTr", ""])
